@@ -38,6 +38,8 @@ structure NormalForm (ip : IpOracle) (o : Opts) (u' : Bytes) (o' : Opts) : Prop 
   port : portOf o'.hostinfo = portOf o.hostinfo
   literal : o.uriHost = none → o' = o
   fixed : getRequestUri ip o' = some u'
+  /-- the normal form consists of the characters RFC 3986 allows in a URI -/
+  uriText : ∀ c ∈ u', isUriChar c = true
 
 -- the literal case -----------------------------------------------------------------------
 
@@ -55,7 +57,8 @@ theorem normalForm_literal {ip : IpOracle} {o : Opts} (hs : o.scheme ∈ coapSch
                path := o.path, query := o.query } : Opts) = o := by
     cases o; simp_all
   rw [ho] at hset
-  exact ⟨_, hget, hset, rfl, rfl, rfl, rfl, rfl, rfl, fun _ => rfl, hget⟩
+  exact ⟨_, hget, hset, rfl, rfl, rfl, rfl, rfl, rfl, fun _ => rfl, hget,
+    render_uriChars hs hn.uriChars hp hq⟩
 
 -- no user info in front of a leading bracket ---------------------------------------------
 
@@ -151,6 +154,79 @@ theorem after_lowerUntilPct (s : Bytes) : after 37 (lowerUntilPct s) = after 37 
       have e2 : after 37 (x :: r) = after 37 r := by
         simp [after, dropUntil, hx]
       rw [e1, e2, ih]
+
+theorem lowerUntilPct_digits {s : Bytes} (h : ∀ d ∈ lowerUntilPct s, isDigit d = true ∨ d = 46) :
+    ∀ c ∈ s, isDigit c = true ∨ c = 46 := by
+  induction s with
+  | nil => intro c hc; cases hc
+  | cons x r ih =>
+    simp only [lowerUntilPct] at h
+    split at h
+    · rename_i hx
+      subst hx
+      have := h 37 (by simp)
+      simp [isDigit] at this
+    · have hx := h (lowerChar x) (by simp)
+      have hr := ih (fun d hd => h d (by simp [hd]))
+      intro c hc
+      simp only [List.mem_cons] at hc
+      rcases hc with rfl | hc
+      · unfold lowerChar at hx
+        split at hx
+        · rename_i hu
+          simp only [isUpper, Bool.and_eq_true, decide_eq_true_eq] at hu
+          simp only [isDigit, Bool.and_eq_true, decide_eq_true_eq] at hx
+          omega
+        · exact hx
+      · exact hr c hc
+
+/-- an authority without bracket and user info whose host is a dotted quad and whose port, if
+any, is a number consists of digits, dots and a colon -/
+theorem plain_netloc_uriChars {n hn : Bytes} {port : Option Nat} (h91 : 91 ∉ n)
+    (hui : hasUserinfo n = false) (hhn : hostnameOf n = some hn) (h4 : ip4Looking hn = true)
+    (hport : portOf n = some port) : ∀ c ∈ n, isUriChar c = true := by
+  have h64 : 64 ∉ n := by
+    intro hm
+    unfold hasUserinfo at hui
+    rw [contains_true_of_mem hm] at hui
+    cases hui
+  have hhi : hostinfoOf n = n := afterLast_of_not_mem h64
+  have hraw : rawHostname n = before 58 n := by
+    unfold rawHostname
+    simp only [hhi, contains_false_of_not_mem h91, Bool.false_eq_true, ↓reduceIte]
+  have hrp : rawPort n = after 58 n := by
+    unfold rawPort
+    simp only [hhi, contains_false_of_not_mem h91, Bool.false_eq_true, ↓reduceIte]
+  obtain ⟨_, hhneq⟩ := hostnameOf_inv hhn
+  have hhost : ∀ c ∈ before 58 n, isDigit c = true ∨ c = 46 := by
+    apply lowerUntilPct_digits
+    intro d hd
+    rw [← hraw, ← hhneq] at hd
+    exact ip4Looking_chars h4 d hd
+  have hpd : ∀ c ∈ after 58 n, isDigit c = true := by
+    intro c hc
+    unfold portOf at hport
+    simp only [hrp] at hport
+    split at hport
+    · rename_i he; rw [he] at hc; cases hc
+    · split at hport
+      · rename_i hd
+        simp only [Bool.and_eq_true, allDigits, List.all_eq_true] at hd
+        exact hd.1 c hc
+      · cases hport
+  intro c hc
+  have hcase : c ∈ before 58 n ∨ c = 58 ∨ c ∈ after 58 n := by
+    by_cases h58 : 58 ∈ n
+    · have e := before_after_eq h58
+      rw [e] at hc
+      simpa using hc
+    · left; rw [before_of_not_mem h58]; exact hc
+  rcases hcase with h | rfl | h
+  · rcases hhost c h with h' | rfl
+    · exact uriChar_of_digit h'
+    · decide
+  · decide
+  · exact uriChar_of_digit (hpd c h)
 
 /-- shape of an accepted authority that contains a bracket -/
 theorem literal_shape {ip : IpOracle} {p : Parsed} {o : Opts} (hb : bracketsOk ip p.netloc = true)
@@ -303,6 +379,7 @@ theorem normalForm_of_accepted {ip : IpOracle} (laws : IpLaws ip) {u : Bytes} (h
         rw [hhi]
         exact
           { clean := fun c hc => (S.netloc c hc).2
+            uriChars := plain_netloc_uriChars h91 A.userinfo hhn (by simpa [hhead] using hlit) hport
             brackets := S.brackets
             hostname := ⟨hn, hhn, Or.inl ⟨hlit, rfl⟩⟩
             userinfo := A.userinfo
@@ -354,7 +431,8 @@ theorem normalForm_of_accepted {ip : IpOracle} (laws : IpLaws ip) {u : Bytes} (h
             = .ok (r.toOpts ip) := by
         have := setRequestUri_render (ip := ip) hsch (toOpts_facts hr) hp hq
         rw [toOpts_eq ip r]; exact this
-      refine ⟨_, r.toOpts ip, hget, hset, ?_, ?_, ?_, ?_, ?_, ?_, ?_, hget'⟩
+      refine ⟨_, r.toOpts ip, hget, hset, ?_, ?_, ?_, ?_, ?_, ?_, ?_, hget',
+        render_uriChars hsch (toOpts_facts hr).uriChars hp hq⟩
       · rfl
       · rw [huh]; rfl
       · rw [A.uriPort]; rfl
